@@ -47,7 +47,30 @@ Definition sysres_with_sum (size : nat) (w : list T) (s sqrteps u0 : T) : option
   | x :: r => comb (positions u0 size) r 0 x
   end.
 
+(** ---- the repaired routine: clipped teeth and a loop bound at the last non-zero weight ---- *)
+(** np.minimum on non-NaN values *)
+Definition o_minT (a b : T) : T := if o_leb o a b then a else b.
+(** np.nextafter((i + 1.0) / size, 0.0): the largest value of cell i *)
+Definition cell_end (size i : nat) : T := o_prev o (o_div o (o_add o (o_ofnat o i) (o_one o)) (o_ofnat o size)).
+Definition cposition (u0 : T) (size i : nat) : T := o_minT (position u0 size i) (cell_end size i).
+Definition cpositions (u0 : T) (size : nat) : list T := map (cposition u0 size) (seq 0 size).
+(** last = np.flatnonzero(weights)[-1] (len(weights)-1 when every weight is zero); the loop never looks beyond it,
+    so the routine is the comb run on weights[:last+1] *)
+Definition is_zero (x : T) : bool := o_eqb o x (o_zero o).
+Fixpoint drop_zeros (l : list T) : list T :=
+  match l with [] => [] | x :: r => if is_zero x then drop_zeros r else l end.
+Definition upto_last_nonzero (w : list T) : list T :=
+  match drop_zeros (rev w) with [] => w | r => rev r end.
+Definition sysres2_with_sum (size : nat) (w : list T) (s sqrteps u0 : T) : option (list nat) :=
+  let w' := if renorm_needed s sqrteps then renorm w s else w in
+  match upto_last_nonzero w' with
+  | [] => None
+  | x :: r => comb (cpositions u0 size) r 0 x
+  end.
+
 Definition sum_list (w : list T) : T := fold_left (o_add o) w (o_zero o).
+Definition sysres2 (size : nat) (w : list T) (sqrteps u0 : T) : option (list nat) :=
+  sysres2_with_sum size w (fold_left (o_add o) w (o_zero o)) sqrteps u0.
 Definition sysres (size : nat) (w : list T) (sqrteps u0 : T) : option (list nat) :=
   sysres_with_sum size w (sum_list w) sqrteps u0.
 
